@@ -154,6 +154,10 @@ var scripted = [][]sop{
 	{{0, "t1", nil}, {0, "t2", nil}, {1, "t1", []string{"pkg.A"}}, {1, "t2", []string{"pkg.A"}}, {2, "t1", nil}},
 	{{0, "t1", nil}, {0, "t2", nil}, {1, "t1", []string{"pkg.A"}}, {1, "t2", []string{"pkg.A", "pkg.B"}}, {1, "t1", []string{}}},
 	{{0, "t1", nil}, {0, "t2", nil}, {0, "t3", nil}, {1, "t2", []string{"pkg.A"}}, {1, "t1", []string{"pkg.A"}}, {1, "t3", []string{"pkg.A"}}, {1, "t2", []string{"x"}}, {1, "t1", []string{}}},
+	// three and four claimants released one after the other (by close, by update): every hand-over must still find the next
+	{{0, "t1", nil}, {0, "t2", nil}, {0, "t3", nil}, {1, "t1", []string{"pkg.A"}}, {1, "t2", []string{"pkg.A"}}, {1, "t3", []string{"pkg.A"}}, {2, "t1", nil}, {2, "t2", nil}},
+	{{0, "t1", nil}, {0, "t2", nil}, {0, "t3", nil}, {0, "t4", nil}, {1, "t1", []string{"pkg.A"}}, {1, "t2", []string{"pkg.A"}}, {1, "t3", []string{"pkg.A", "pkg.B"}}, {1, "t4", []string{"pkg.A"}},
+		{1, "t1", []string{}}, {2, "t2", nil}, {1, "t3", []string{"pkg.B"}}},
 	{{0, "t1", nil}, {1, "t1", []string{"pkg.A"}}, {1, "t1", []string{}}, {0, "t2", nil}, {1, "t2", []string{"pkg.A"}}, {1, "t1", []string{"pkg.A"}}, {2, "t2", nil}},
 }
 
